@@ -11,6 +11,7 @@ import (
 	"net/url"
 	"os"
 	"path/filepath"
+	"reflect"
 	"sort"
 	"strings"
 	"sync"
@@ -61,6 +62,10 @@ type P struct {
 	Extra  map[string]interface{}
 	N      int
 }
+
+// Owner is a type the encrypt filters are told to ignore (IgnoreTypes lists *Owner); the payloads carry a *Owner
+// inside a map[string]interface{}, where the ignore list is not consulted.
+type Owner struct{ Name string }
 
 // rotationEvent implements encrypt.RotateWrapper (no new wrapper, new salt and info).
 type rotationEvent struct {
@@ -165,7 +170,7 @@ func runComp(t interface{ Fatalf(string, ...any) }, root string, caseNo int, spe
 		case "encrypt":
 			// every encrypt filter of the composition is configured from the same salt / info values, as an
 			// application that builds its filters from one configuration struct does
-			f := &encrypt.Filter{Wrapper: keys[0].Wrapper(), HmacSalt: sharedSalt, HmacInfo: sharedInfo}
+			f := &encrypt.Filter{Wrapper: keys[0].Wrapper(), HmacSalt: sharedSalt, HmacInfo: sharedInfo, IgnoreTypes: []reflect.Type{reflect.TypeOf(&Owner{})}}
 			encs = append(encs, f)
 			n = f
 		case "gated":
@@ -346,6 +351,7 @@ func runComp(t interface{ Fatalf(string, ...any) }, root string, caseNo int, spe
 			})
 		}
 	}
+	var senderSaw atomic.Value
 	for s := 0; s < senders; s++ {
 		wg.Add(1)
 		go func(s int) {
@@ -356,6 +362,7 @@ func runComp(t interface{ Fatalf(string, ...any) }, root string, caseNo int, spe
 					et = "B"
 				}
 				var payload interface{}
+				var owner *Owner
 				switch {
 				case hasGated && i%2 == 0:
 					payload = &gated.Payload{ID: fmt.Sprintf("g%d", s), Flush: i%10 == 8, Header: map[string]interface{}{"user": "alice"}, Detail: map[string]interface{}{"i": i}}
@@ -365,9 +372,13 @@ func runComp(t interface{ Fatalf(string, ...any) }, root string, caseNo int, spe
 				case i%3 == 1:
 					payload = map[string]interface{}{"name": "bob", "n": i, "list": []string{"a", "b"}}
 				default:
-					payload = &P{ID: fmt.Sprintf("id-%d-%d", s, i), User: "alice", Secret: []byte("hunter2"), Digest: "d", Extra: map[string]interface{}{"k": "v"}, N: i}
+					owner = &Owner{Name: "carol"}
+					payload = &P{ID: fmt.Sprintf("id-%d-%d", s, i), User: "alice", Secret: []byte("hunter2"), Digest: "d", Extra: map[string]interface{}{"k": "v", "owner": owner}, N: i}
 				}
 				st, _ := b.Send(ctx, eventlogger.EventType(et), payload)
+				if owner != nil && owner.Name != "carol" {
+					senderSaw.CompareAndSwap(nil, fmt.Sprintf("after Send returned the sender's own payload was modified: Extra[\"owner\"].Name = %q, it was \"carol\"", owner.Name))
+				}
 				for _, id := range st.CompleteSinks() {
 					if c, ok := completions.Load(string(id)); ok {
 						c.(*atomic.Int64).Add(1)
@@ -385,6 +396,9 @@ func runComp(t interface{ Fatalf(string, ...any) }, root string, caseNo int, spe
 	}
 	close(stop)
 	cwg.Wait()
+	if m := senderSaw.Load(); m != nil {
+		t.Fatalf("VIOLATION C19: %s (a pipeline's private copy must not write to the event the other pipelines and the sender hold)\ncase: %s", m, desc)
+	}
 	// composites emitted by control-goroutine FlushAll go through Send again: their completions are not
 	// seen by the senders, so for compositions with a broker-wired gated filter only ">=" holds
 	loose := false
